@@ -79,6 +79,15 @@ CHECKS = {
          "Every (d,p) x (d',p') with d,d'<=4, p,p'<=3 and boundary pairs up to d+p=255, from every starting residue and three bases: the real decoder fed the real encoder's uninterrupted output must adopt the ratio within 258+2(d+p) packets "
          "and then recover a single loss; with equal ratios every fate vector {deliver, drop, duplicate, swap} over the first K genuine packets must never set the tuning flag or change the ratio.",
          "DESIGN.md 5 C16"),
+ "C11": ("fault_enumeration", "exhaustive fate-vector x injection enumeration on a real listener with several real clients; schedule deviations on a subset",
+         "Listener + 2-3 dialled clients on the virtual network: every fate vector over the first K datagrams x one injected datagram (same address/other conversation with sn!=0, sn=0, ACK; foreign address replaying the conversation; "
+         "parity/short packets without readable conversation; strangers and stale conversations writing to the dialled client) x three instants x backlog {default, 1} x address types x cipher/FEC classes; "
+         "each accepted session's reads must be a prefix of what the peer at its address and conversation wrote, each genuine peer accepted exactly once, nothing foreign delivered, stalled or closed.",
+         "DESIGN.md 5 C11"),
+ "C19": ("fault_enumeration", "exhaustive payload-length enumeration and fate-vector x schedule exploration of OOB interleaved with stream traffic on real session pairs",
+         "Every OOB payload length 0..GetOOBMaxSize()+1 on a clean path for three cipher classes; boundary lengths in both directions under every fate vector and every single scheduling deviation with the independent wire decoder "
+         "(OOB consumes no FEC id, parity covers data only) and the stream oracle; refusal without FEC and above the maximum; two clients on one listener; a new conversation on the same socket while the old one's OOB is in flight.",
+         "DESIGN.md 5 C19"),
 }
 NOT_YET = {}
 
